@@ -1277,6 +1277,203 @@ static void run_fmt(void)
 	sk_free(st);
 }
 
+/* ------------------------------------------------------- huge fragments */
+/* Variant "huge": the simulated source delivers a fragment of 2^29 octets or more in ONE call.
+   That is where the octet count of a fragment no longer fits the 32-bit bit-length arithmetic of
+   belt-hash/HMAC (beltBlockAddBitSizeU32, t = count >> 29) and of the DWP/CHE length block
+   (beltHalfBlockAddBitSizeW); no test of the suite and no ordinary run of this engine reaches it.
+   Reference: the same octets delivered in pieces of at most 2^28 octets, and the one-shot function.
+   The data are a 4 MiB seeded tile mapped read-only again and again into 1 GiB + 8 MiB of address
+   space (memfd), so that a run costs time but no memory. */
+#include <sys/mman.h>
+#include <unistd.h>
+#define HUGE_TILE ((size_t)1 << 22)
+#define HUGE_SPAN (((size_t)1 << 30) + ((size_t)1 << 23))
+static const octet* huge_base;
+
+static int huge_init(void)
+{
+	int fd;
+	size_t o;
+	octet* t;
+	sk_rng g;
+	if (huge_base)
+		return 1;
+	fd = memfd_create("sk_huge", 0);
+	if (fd < 0 || ftruncate(fd, (off_t)HUGE_TILE) != 0)
+	{
+		sk_fault(OUT, "memfd_create/ftruncate failed");
+		return 0;
+	}
+	t = (octet*)mmap(0, HUGE_TILE, PROT_READ | PROT_WRITE, MAP_SHARED, fd, 0);
+	if (t == MAP_FAILED)
+	{
+		sk_fault(OUT, "mmap of the tile failed");
+		return 0;
+	}
+	sk_rng_seed(&g, 0x68756765u); /* fixed: content is the same in every process */
+	sk_bytes(&g, t, HUGE_TILE);
+	munmap(t, HUGE_TILE);
+	t = (octet*)mmap(0, HUGE_SPAN, PROT_NONE, MAP_PRIVATE | MAP_ANONYMOUS | MAP_NORESERVE, -1, 0);
+	if (t == MAP_FAILED)
+	{
+		sk_fault(OUT, "mmap of the span failed");
+		return 0;
+	}
+	for (o = 0; o < HUGE_SPAN; o += HUGE_TILE)
+		if (mmap(t + o, HUGE_TILE, PROT_READ, MAP_SHARED | MAP_FIXED, fd, 0) == MAP_FAILED)
+		{
+		sk_fault(OUT, "mmap of a tile copy failed");
+		return 0;
+	}
+	close(fd);
+	huge_base = t;
+	return 1;
+}
+
+enum { H_HASH, H_HMAC, H_MAC, H_BASH, H_DWP_I, H_DWP_A, H_CHE_I, H_CHE_A, H_PRG, H_N };
+static const char* HN[] = { "beltHash", "beltHMAC", "beltMAC", "bashHash", "beltDWP:StepI", "beltDWP:StepA",
+	"beltCHE:StepI", "beltCHE:StepA", "bashPrg:Absorb" };
+
+typedef struct { int sch; size_t l; octet key[32]; size_t klen; octet iv[16]; void* st; } huge_t;
+
+static size_t huge_keep(const huge_t* h)
+{
+	switch (h->sch)
+	{
+	case H_HASH: return beltHash_keep();
+	case H_HMAC: return beltHMAC_keep();
+	case H_MAC: return beltMAC_keep();
+	case H_BASH: return bashHash_keep();
+	case H_DWP_I: case H_DWP_A: return beltDWP_keep();
+	case H_CHE_I: case H_CHE_A: return beltCHE_keep();
+	default: return bashPrg_keep();
+	}
+}
+
+static void huge_start(huge_t* h)
+{
+	h->st = sk_alloc(huge_keep(h));
+	switch (h->sch)
+	{
+	case H_HASH: beltHashStart(h->st); break;
+	case H_HMAC: beltHMACStart(h->st, h->key, h->klen); break;
+	case H_MAC: beltMACStart(h->st, h->key, h->klen); break;
+	case H_BASH: bashHashStart(h->st, h->l); break;
+	case H_DWP_I: case H_DWP_A: beltDWPStart(h->st, h->key, h->klen, h->iv); break;
+	case H_CHE_I: case H_CHE_A: beltCHEStart(h->st, h->key, h->klen, h->iv); break;
+	default: bashPrgStart(h->st, h->l, 1, h->iv, 16, h->key, 32); bashPrgAbsorbStart(h->st); break;
+	}
+}
+
+static void huge_step(huge_t* h, const octet* p, size_t n)
+{
+	switch (h->sch)
+	{
+	case H_HASH: beltHashStepH(p, n, h->st); break;
+	case H_HMAC: beltHMACStepA(p, n, h->st); break;
+	case H_MAC: beltMACStepA(p, n, h->st); break;
+	case H_BASH: bashHashStepH(p, n, h->st); break;
+	case H_DWP_I: beltDWPStepI(p, n, h->st); break;
+	case H_DWP_A: beltDWPStepA(p, n, h->st); break;
+	case H_CHE_I: beltCHEStepI(p, n, h->st); break;
+	case H_CHE_A: beltCHEStepA(p, n, h->st); break;
+	default: bashPrgAbsorbStep(p, n, h->st); break;
+	}
+}
+
+static size_t huge_get(huge_t* h, octet out[32])
+{
+	size_t n = 32;
+	memset(out, 0, 32);
+	switch (h->sch)
+	{
+	case H_HASH: beltHashStepG(out, h->st); break;
+	case H_HMAC: beltHMACStepG(out, h->st); break;
+	case H_MAC: beltMACStepG(out, h->st), n = 8; break;
+	case H_BASH: bashHashStepG(out, 32, h->st); break;
+	case H_DWP_I: case H_DWP_A: beltDWPStepG(out, h->st), n = 8; break;
+	case H_CHE_I: case H_CHE_A: beltCHEStepG(out, h->st), n = 8; break;
+	default: bashPrgSqueeze(out, 32, h->st); break;
+	}
+	sk_free(h->st), h->st = 0;
+	return n;
+}
+
+static void run_huge(void)
+{
+	static const size_t LV[] = { 128, 192, 256 };
+	huge_t h;
+	size_t off, L, pre, big, done, n, pieces = 0;
+	unsigned lc, shape;
+	octet single[32], pieced[32], oneshot[64];
+	err_t code = ERR_MAX;
+	if (!huge_init())
+		return;
+	memset(&h, 0, sizeof(h));
+	h.sch = (int)sk_below(&R, H_N);
+	h.l = LV[sk_below(&R, 3)];
+	h.klen = 32;
+	sk_bytes(&R, h.key, 32), sk_bytes(&R, h.iv, 16);
+	off = (size_t)sk_below(&R, HUGE_TILE);
+	/* total length: around the 2^29 border, beyond it, and (1 in 8) beyond 2^30 */
+	lc = (unsigned)sk_below(&R, 8);
+	L = lc == 0 ? ((size_t)1 << 29) :
+		lc == 1 ? ((size_t)1 << 29) + 1 + (size_t)sk_below(&R, 64) :
+		lc <= 4 ? ((size_t)1 << 29) + (size_t)sk_below(&R, (size_t)1 << 28) :
+		lc <= 6 ? ((size_t)1 << 29) + ((size_t)1 << 28) + (size_t)sk_below(&R, (size_t)1 << 28) :
+		((size_t)1 << 30) + (size_t)sk_below(&R, (size_t)1 << 22);
+	/* delivery under test: [pre][one fragment of >= 2^29 octets][rest] */
+	shape = (unsigned)sk_below(&R, 4);
+	pre = shape & 1 ? 1 + (size_t)sk_below(&R, 95) : 0;
+	big = shape & 2 ? ((size_t)1 << 29) + (size_t)sk_below(&R, L - pre - ((size_t)1 << 29) + 1) : L - pre;
+	if (pre + big > L)
+		pre = 0, big = L;
+	sk_text(OUT, "bundle huge/%s l=%u offset=%u total=%llu: fragments %llu + %llu + %llu", HN[h.sch], (unsigned)h.l,
+		(unsigned)off, (unsigned long long)L, (unsigned long long)pre, (unsigned long long)big,
+		(unsigned long long)(L - pre - big));
+	if (!sk_keep(MASK, 0))
+		return;
+	sk_count("fault.fragment_of_2^29_octets_or_more", 1);
+	if (big >> 30)
+		sk_count("fault.fragment_of_2^30_octets_or_more", 1);
+	huge_start(&h);
+	if (pre)
+		huge_step(&h, huge_base + off, pre);
+	huge_step(&h, huge_base + off + pre, big);
+	if (L - pre - big)
+		huge_step(&h, huge_base + off + pre + big, L - pre - big);
+	n = huge_get(&h, single);
+	/* reference 1: pieces of 2^24..2^28 octets */
+	huge_start(&h);
+	for (done = 0; done < L; done += n, ++pieces)
+	{
+		n = ((size_t)1 << 24) + (size_t)sk_below(&R, ((size_t)1 << 28) - ((size_t)1 << 24) + 1);
+		if (n > L - done)
+			n = L - done;
+		huge_step(&h, huge_base + off + done, n);
+	}
+	n = huge_get(&h, pieced);
+	sk_count("probe.huge_reference_pieces", (long)pieces);
+	cmp_out("huge", HN[h.sch], single, pieced, n, (unsigned)(L >> 20));
+	/* reference 2: the one-shot function, itself a single huge delivery */
+	if (!OUT->violated && h.sch <= H_BASH)
+	{
+		memset(oneshot, 0, 64);
+		sk_heap_arm();
+		code = h.sch == H_HASH ? beltHash(oneshot, huge_base + off, L) :
+			h.sch == H_HMAC ? beltHMAC(oneshot, huge_base + off, L, h.key, h.klen) :
+			h.sch == H_MAC ? beltMAC(oneshot, huge_base + off, L, h.key, h.klen) :
+			bashHash(oneshot, h.l, huge_base + off, L);
+		sk_heap_disarm();
+		if (code != ERR_OK)
+			ref_fail("huge", code);
+		else
+			cmp_out("huge", "one-shot", oneshot, pieced, n, (unsigned)(L >> 20));
+	}
+	SHAPE = sk_mix((uint64_t)h.sch * 64 + lc * 4 + shape, h.sch == H_BASH || h.sch == H_PRG ? h.l : 0);
+}
+
 /* ------------------------------------------------------------ dispatcher */
 enum { B_ECB, B_CBC, B_CFB, B_CTR, B_BDE, B_SDE, B_MAC, B_HASH, B_HMAC, B_DWP,
 	B_CHE, B_KRP, B_BASHHASH, B_BASHPRG, B_BRNGCTR, B_BRNGHMAC, B_HOTP, B_TOTP, B_OCRA, B_WBL, B_FMT, B_N };
@@ -1290,6 +1487,8 @@ static void init(const sk_opts* o)
 	for (i = 0; i < B_N; ++i)
 		if (o->variant && !strcmp(o->variant, BN[i]))
 			only = i;
+	if (o->variant && !strcmp(o->variant, "huge"))
+		only = B_N;
 }
 
 static void run(uint64_t seed, const sk_mask* mask, sk_result* out)
@@ -1299,6 +1498,14 @@ static void run(uint64_t seed, const sk_mask* mask, sk_result* out)
 	OUT = out, MASK = mask, NEXT_IDX = 0, SHAPE = SK_DG_INIT;
 	sk_heap_reset(sk_u64(&R));
 	b = only >= 0 ? only : (int)sk_below(&R, B_N);
+	if (b == B_N)
+	{
+		run_huge();
+		out->nops = 1;
+		sk_count("bundle.huge", 1);
+		out->sig = SHAPE;
+		return;
+	}
 	switch (b)
 	{
 	case B_ECB: run_cipher(C_ECB); break;
